@@ -1,9 +1,8 @@
-(** The prefix removal of 0006/0007: [rfind] on the concatenated (lower-cased) bytes
-    with the byte index applied to the original id (Model/Layout.v strip_prefix) equals
-    the character-level "right-most occurrence, ignoring case" of the documents
-    (Model/LayoutSpec.v omit_prefix) whenever the case mapping is regular
-    (KnownC11.case_regular).  The bridge is the prefix-code structure of UTF-8. *)
-From Rocfl Require Import Base.Bytes Model.Layout Model.LayoutSpec Model.KnownC11
+(** The byte-wise prefix removal ([rfind] on concatenated keys of the characters, the byte
+    index applied to the original id: 0007, and 0006 with a delimiter that has no case)
+    in terms of character positions: [strip_core_correct].  The bridge is the prefix-code
+    structure of UTF-8.  (What the occurrences mean "ignoring case": LayoutCaseFacts.v.) *)
+From Rocfl Require Import Base.Bytes Model.Layout Model.LayoutSpec
   Proofs.BytesFacts Proofs.LayoutFacts.
 From Coq Require Import ZArith Lia ZifyBool ZifyN ZifyNat.
 Ltac Zify.zify_post_hook ::= Z.div_mod_to_equations.
@@ -287,111 +286,44 @@ Proof.
     rewrite S, ES. reflexivity.
 Qed.
 
-(** * the documents' omit_prefix in terms of last_occ on lower-case forms *)
+(** * the narrower, character-by-character reading in terms of last_occ on lower-case forms *)
 Lemma ci_prefix_kprefix d s : ci_prefix d s = kprefix u_low d s.
 Proof.
   revert s. induction d as [|a d IH]; intros s; [reflexivity|].
   destruct s as [|c s]; [reflexivity|]. cbn [ci_prefix kprefix]. unfold same_ci. now rewrite IH.
 Qed.
 
-Lemma after_last_occ d s :
-  after_last d s = match last_occ u_low d s with Some k => Some (skipn (k + List.length d) s) | None => None end.
+Lemma after_last_simple_occ d s :
+  after_last_simple d s = match last_occ u_low d s with Some k => Some (skipn (k + List.length d) s) | None => None end.
 Proof.
   induction s as [|c s IH].
-  - cbn [after_last last_occ]. destruct d; reflexivity.
-  - cbn [after_last last_occ]. rewrite IH.
+  - cbn [after_last_simple last_occ]. destruct d; reflexivity.
+  - cbn [after_last_simple last_occ]. rewrite IH.
     destruct (last_occ u_low d s) as [k|]; [reflexivity|].
     rewrite ci_prefix_kprefix. destruct (kprefix u_low d (c :: s)); reflexivity.
 Qed.
 
-(** two keys that agree on every (delimiter char, id char) pair give the same occurrences *)
-Lemma kprefix_agree key1 key2 ds : forall cs,
-  Forall (fun c => Forall (fun a => bytes_eqb (key1 a) (key1 c) = bytes_eqb (key2 a) (key2 c)) ds) cs ->
-  kprefix key1 ds cs = kprefix key2 ds cs.
-Proof.
-  induction ds as [|a ds IH]; intros cs H; [reflexivity|].
-  destruct cs as [|c cs]; [reflexivity|]. cbn [kprefix].
-  inversion H as [|? ? Hc Hcs]; subst. inversion Hc as [|? ? Hac Hds]; subst.
-  rewrite Hac. f_equal. apply IH.
-  eapply Forall_impl; [|exact Hcs]. intros x Hx. now inversion Hx.
-Qed.
-
-Lemma last_occ_agree key1 key2 ds cs :
-  Forall (fun c => Forall (fun a => bytes_eqb (key1 a) (key1 c) = bytes_eqb (key2 a) (key2 c)) ds) cs ->
-  last_occ key1 ds cs = last_occ key2 ds cs.
-Proof.
-  induction cs as [|c cs IH]; intros H; [reflexivity|].
-  cbn [last_occ]. inversion H as [|? ? _ Hcs]; subst. rewrite IH by exact Hcs.
-  now rewrite (kprefix_agree key1 key2 ds (c :: cs) H).
-Qed.
-
-(** * strip_prefix (code) = omit_prefix (documents) under a regular case mapping *)
 Lemma forallb_Forall {A} (f : A -> bool) l : forallb f l = true -> Forall (fun x => f x = true) l.
 Proof. intros H. apply Forall_forall. now apply forallb_forall. Qed.
 
 Lemma ustr_wf_keys s : ustr_wf s = true -> keys_wf u_orig (us_chars s).
 Proof. apply forallb_Forall. Qed.
 
-Definition omitted (d id : ustr) : res bytes :=
-  res_bind (omit_prefix (us_chars d) (us_chars id)) (fun r => Ok (text r)).
-
-Lemma omitted_last_occ d id :
-  omitted d id =
-  match last_occ u_low (us_chars d) (us_chars id) with
-  | None => Ok (O (us_chars id))
-  | Some k => match skipn (k + List.length (us_chars d)) (us_chars id) with [] => Err | r => Ok (O r) end
-  end.
-Proof.
-  unfold omitted, omit_prefix. rewrite after_last_occ.
-  destruct (last_occ u_low (us_chars d) (us_chars id)) as [k|]; [|reflexivity].
-  destruct (skipn _ _); reflexivity.
-Qed.
-
-Lemma strip_prefix_correct d id :
-  ustr_wf d = true -> ustr_wf id = true -> us_chars d <> [] -> case_regular d id = true ->
-  refusal (strip_prefix d id) = omitted d id.
-Proof.
-  intros Wd Wi N R. rewrite omitted_last_occ. unfold case_regular in R.
-  destruct (case_matters d) eqn:CM.
-  - apply andb_true_iff in R as [R F2]. apply andb_true_iff in R as [R F1].
-    apply andb_true_iff in R as [E1 E2]. apply bytes_eqb_eq in E1, E2.
-    assert (S : strip_prefix d id = strip_core u_low (us_chars d) (us_chars id)).
-    { unfold strip_prefix, strip_core, test_id, norm_delim. rewrite CM, E1, E2. reflexivity. }
-    rewrite S, strip_core_correct.
-    + destruct (last_occ u_low (us_chars d) (us_chars id)); [|reflexivity].
-      destruct (skipn _ _); reflexivity.
-    + apply forallb_Forall in F2. exact F2.
-    + apply forallb_Forall in F1. eapply Forall_impl; [|exact F1].
-      intros u Hu. cbn beta in Hu. apply andb_true_iff in Hu as [Hu _]. exact Hu.
-    + now apply ustr_wf_keys.
-    + exact N.
-    + apply forallb_Forall in F1. eapply Forall_impl; [|exact F1].
-      intros u Hu. cbn beta in Hu. apply andb_true_iff in Hu as [_ Hu]. lia.
-  - assert (S : strip_prefix d id = strip_core u_orig (us_chars d) (us_chars id)).
-    { unfold strip_prefix, strip_core, test_id, norm_delim. rewrite CM. reflexivity. }
-    assert (A : last_occ u_orig (us_chars d) (us_chars id) = last_occ u_low (us_chars d) (us_chars id)).
-    { apply last_occ_agree. apply forallb_Forall in R. eapply Forall_impl; [|exact R].
-      intros c Hc. cbn beta in Hc. apply forallb_Forall in Hc. eapply Forall_impl; [|exact Hc].
-      intros a Ha. cbn beta in Ha. apply Bool.eqb_prop in Ha.
-      rewrite (bytes_eqb_sym (u_orig a)), (bytes_eqb_sym (u_low a)). now symmetry. }
-    rewrite S, strip_core_correct.
-    + rewrite A. destruct (last_occ u_low (us_chars d) (us_chars id)); [|reflexivity].
-      destruct (skipn _ _); reflexivity.
-    + now apply ustr_wf_keys.
-    + now apply ustr_wf_keys.
-    + now apply ustr_wf_keys.
-    + exact N.
-    + apply Forall_forall. reflexivity.
-Qed.
-
 Lemma delim_chars_nonempty d : us_bytes d <> [] -> us_chars d <> [].
 Proof. intros H E. apply H. unfold us_bytes. now rewrite E. Qed.
 
-(** the remainder is a suffix of the id's characters *)
-Lemma omit_prefix_suffix d id r : omit_prefix d id = Ok r -> exists j, r = skipn j id.
+(** slicing the id after its first j characters: the code's test "the id ends here" and
+    its slice (layout.rs:564-571, 632-640) *)
+Lemma slice_after cs j : keys_wf u_orig cs -> (j <= List.length cs)%nat ->
+  (if blen (O cs) =? blen (O (firstn j cs)) then Panic else str_from (O cs) (blen (O (firstn j cs)))) =
+  match skipn j cs with [] => Panic | r => Ok (O r) end.
 Proof.
-  unfold omit_prefix. rewrite after_last_occ.
-  destruct (last_occ u_low d id) as [k|].
-  - destruct (skipn (k + List.length d) id) eqn:E; [discriminate|]. intros H. injection H as <-. eauto.
-  - intros H. injection H as <-. exists 0%nat. reflexivity.
+  intros Wo Lk. destruct (skipn j cs) as [|c rest] eqn:ES.
+  - assert (F : firstn j cs = cs).
+    { rewrite <- (firstn_skipn j cs) at 2. rewrite ES, app_nil_r. reflexivity. }
+    rewrite F, N.eqb_refl. reflexivity.
+  - assert (NE : skipn j cs <> []) by (rewrite ES; discriminate).
+    destruct (str_from_char_offset cs j Wo Lk NE) as [D S].
+    replace (blen (O cs) =? blen (O (firstn j cs))) with false by lia.
+    rewrite S, ES. reflexivity.
 Qed.
